@@ -165,6 +165,7 @@ def run_property(pid, tier, seed):
             shutil.rmtree(os.path.join(base, "target_w%d" % w), ignore_errors=True)
     # ---------------- decide
     violations, known_hits = [], []
+    hang_violations = []
     n_queries = 0
     for r in results:
         h = r["harness"]; cl = r["class"]
@@ -173,6 +174,24 @@ def run_property(pid, tier, seed):
             inconclusive.append("%s: no verdict (timeout=%s oom=%s rc=%s)" % (h["name"], r["timeout"], r["oom"], r["rc"]))
             continue
         if cl["bound"]:
+            # An unwinding assertion that fails inside graphrs code can mean a bound that is too small
+            # or a loop that does not terminate. Decide natively: run the harness against the real crate
+            # under a watchdog; a run that does not finish is a reproduced non-termination.
+            unwind = [b for b in cl["bound"] if "unwinding assertion" in b["desc"] and "/verif/" not in b["loc"] and "verif_" not in b["loc"]]
+            if unwind and h.get("hang_check", True) and not h.get("replay"):
+                hung = native_hang_check(pid, h)
+                if hung:
+                    f = dict(unwind[0]); f["desc"] = "does not terminate (unwinding assertion failed and the native run exceeded the watchdog): " + f["desc"]
+                    k = known_match(known, pid, h["name"], f)
+                    if k:
+                        known_hits.append((h["name"], f, k))
+                    else:
+                        outdir = os.path.join(os.environ.get("VERIF_REPLAY_DIR", os.path.join(VERIF, "replays")), pid)
+                        os.makedirs(outdir, exist_ok=True)
+                        jpath = os.path.join(outdir, h["name"] + ".json")
+                        json.dump({"property": pid, "harness": h["name"], "failed_checks": [f], "native": "cargo test of the harness did not finish within the watchdog (dev profile, zero-filled symbolic values)"}, open(jpath, "w"), indent=1)
+                        hang_violations.append((h["name"], [f], {"reproduced": True, "path": jpath}))
+                    continue
             inconclusive.append("%s: bound too small: %s" % (h["name"], cl["bound"][0]["desc"]))
             continue
         if cl["undetermined"]:
@@ -202,7 +221,7 @@ def run_property(pid, tier, seed):
             if unknown:
                 violations.append((r, unknown))
     exit_code = 0
-    viol_out = []
+    viol_out = list(hang_violations)
     max_replays = int(os.environ.get("VERIF_MAX_REPLAYS", "4"))
     for (r, fails) in violations:
         h = r["harness"]
@@ -272,6 +291,33 @@ def replay(pid, r, fails):
     jpath = os.path.join(outdir, h["name"] + ".json")
     json.dump(meta, open(jpath, "w"), indent=1)
     return {"reproduced": ok, "path": jpath, "why": detail.get("why")}
+
+def native_hang_check(pid, h, watchdog=40):
+    """Run the harness natively (real crate) with zero-filled symbolic values under a watchdog.
+    Returns True iff the run did not finish."""
+    base = os.path.join(SCRATCH, "%s_replay" % pid)
+    os.makedirs(base, exist_ok=True)
+    sdir = os.path.join(base, "stage")
+    tdir = os.path.join(base, "target")
+    attach = []
+    for rel, hfile in registry.attachments(pid, h["build"]):
+        modname = "verif_" + os.path.splitext(os.path.basename(hfile))[0]
+        attach.append((rel, os.path.join(VERIF, "harness", hfile), modname))
+    stg.stage(sdir, "real", attach, cap=h.get("cap", 4), replay=True)
+    vfile = os.path.join(base, "zeros.vals")
+    open(vfile, "w").write("# zero-filled\n")
+    env = dict(os.environ)
+    env.update({"CARGO_NET_OFFLINE": "true", "VERIF_REPLAY_FILE": vfile, "CARGO_TARGET_DIR": tdir, "VERIF_SHIM_CFG_DIR": sdir})
+    # build first (not under the watchdog)
+    subprocess.run(["cargo", "test", "--offline", "--lib", "--features", "verif_replay", "--no-run"], cwd=sdir, env=env,
+                   stdout=subprocess.PIPE, stderr=subprocess.STDOUT, timeout=1200)
+    try:
+        subprocess.run(["cargo", "test", "--offline", "--lib", "--features", "verif_replay", "--", h["name"], "--nocapture", "--test-threads", "1"],
+                       cwd=sdir, env=env, stdout=subprocess.PIPE, stderr=subprocess.STDOUT, timeout=watchdog)
+        return False
+    except subprocess.TimeoutExpired:
+        subprocess.run(["pkill", "-f", os.path.join(tdir, "debug", "deps", "graphrs-")], stdout=subprocess.PIPE, stderr=subprocess.STDOUT)
+        return True
 
 def native_replay(pid, h, vfile):
     """Stage the *real* build with the harness file attached under feature verif_replay and run the
